@@ -6,6 +6,8 @@ CONSTANTS
   Values <- McValues
   Messages <- McMessages
   Servers <- McServers
+  Forms <- McForms
+  MaxServes = 1
   Deviation = "const-error-code"
 INVARIANTS ErrorOwnCode
 CHECK_DEADLOCK FALSE
